@@ -273,19 +273,29 @@ CLAIMS["C17"] = dict(
          "module's exception mapping, transport_stream.send as atomic.",
     technique="Lean 4 invariant proof over an LTS with an abstract record engine + differential testing on real TLS")
 CLAIMS["C18"] = dict(
-    text="27 Lean theorems over all event lists of the StreamProtocol + SocketStream LTS and all scripts of the "
+    text="35 Lean theorems over all event lists of the StreamProtocol + SocketStream LTS and all scripts of the "
          "UNIX raw-socket loops: returned chunks concatenate to a prefix of the received bytes and to all of "
          "them once the queue is empty, each chunk has 1..max_bytes bytes with the remainder pushed back to the "
          "front, EndOfStream only at the end, closed-stream semantics (send refused, receive drains without "
          "blocking), BusyResourceError without side effects, send returns only with the write gate open, "
          "item-wise in-order writes, reader-side back-pressure (the transport reads only while a receive is "
-         "waiting), no lost wake-up. PARTIAL: real TCP-loopback and UNIX sockets on asyncio and uvloop (floods "
+         "waiting), no lost wake-up. Raw-socket streams (Props/C18rawsock.lean, 8 theorems over an LTS of "
+         "_RawSocketMixin: reader/writer registrations, the wait futures and their deferred done-callbacks, "
+         "aclose(), cancellation, for a loop that closes at once and for one that defers the close while a "
+         "registration exists): with the current code a closed socket never has a registration and no removal is "
+         "ever attempted on a closed descriptor, aclose() resolves every waiter, in a closing state nobody is "
+         "waiting and every resumption ends with ClosedResourceError (or the task's own cancellation), and it "
+         "does so within two steps; the same model with the pre-repair aclose() has the F13 livelock (deferring "
+         "loop) and the bad removals (stock loop) as decide-checked witnesses. PARTIAL: real TCP-loopback and UNIX sockets on asyncio and uvloop (floods "
          "against stalled readers, full duplex, EOF, close, concurrent use) are judged by an oracle; the "
          "protocol is also driven through a fake transport and replayed line by line in the model.",
     design="5/C18",
     note=BASE_NOTE + "Modelled, not verified: the kernel's stream sockets, the discipline of asyncio's "
          "selector transport and of uvloop's transport (data_received only while reading, pause/resume "
-         "alternate, connection_lost last), the fake transport's mimicry of write after EOF/loss.",
+         "alternate, connection_lost last), the fake transport's mimicry of write after EOF/loss, the fake raw socket's and fake loop's mimicry of "
+         "add_reader/remove_reader and of uvloop's deferred close (the raw-socket model is validated against the "
+         "real UNIXSocketStream stepping one loop handle at a time; the real-socket scenario close_blocked "
+         "exercises the same on both real loops).",
     technique="Lean 4 invariant proof over an LTS + differential testing on real sockets")
 CLAIMS["C19"] = dict(
     text="32 Lean theorems: for each function of anyio.itertools a Lean transcription of AnyIO's control flow "
